@@ -215,6 +215,17 @@ func RuleJPair(c *core.Ctx) {
 	}
 	key := "posting.Builder.Build:pair literal"
 	if len(lits) != 2 {
+		// not two literals of one expression: decide on the SSA form (helper that
+		// builds one posting from its parameters, called twice)
+		if decided, probs := jpairSSA(p, build); decided {
+			if len(probs) == 0 {
+				c.Ob(rule, key, build.Pos(), core.FuncName(build), core.Discharged, "the two returned postings carry {x.Neg(), x} for Quantity and Value on the same side, swapped Account/Other and one Commodity (decided on the values; helper parameters followed to the call's arguments)")
+			} else {
+				c.Ob(rule, key, build.Pos(), core.FuncName(build), core.Violated, "the pair builder does not produce exact negatives: "+strings.Join(probs, "; "))
+			}
+			c.Floor(rule, 1)
+			return
+		}
 		c.Ob(rule, key, build.Pos(), core.FuncName(build), core.Undecided, fmt.Sprintf("expected two Posting literals in one expression, found %d", len(lits)))
 		return
 	}
